@@ -501,7 +501,11 @@ mutual
             simp only [exec, ← he.1]
             cases hr' : evalE C.N t.env e with
             | error f => exact resGood_err f (fun n => by have := he.2 n; rw [hr'] at this; simpa using this)
-            | ok v => exact Or.inr ⟨_, _, rfl, rfl, hg.set n v, hr⟩
+            | ok v =>
+              simp only []
+              cases hcst : castTo C.N ty v with
+              | error f => exact resGood_err f (castTo_nu C.N ty v · |> fun h => by rw [hcst] at h; simpa using h)
+              | ok v' => exact Or.inr ⟨_, _, rfl, rfl, hg.set n v', hr⟩
           · simp at h
         | none =>
           simp only at h
